@@ -69,13 +69,16 @@ def scenarios():
     out.append(("line-idna", {}, lambda: StringLineSerializer("LF", encoding="idna", limit=32), ["abc", "www.example.org", "b"]))
     out.append(("line-utf16", {}, lambda: StringLineSerializer("LF", encoding="utf-16-le", limit=32), ["ab", "c"]))
     out.append(("struct", {}, lambda: NamedTupleStructSerializer(Pt, {"x": "h", "y": "b"}), [Pt(1, 2), Pt(-3, 4), Pt(300, 0)]))
+    from easynetwork.serializers import PickleSerializer
+    out.append(("pickle", {"oneshot_only": True}, lambda: PickleSerializer(), [{"a": 1}, [1, 2, "x"], None]))
     Rec = collections.namedtuple("Rec", "key n tag")
     out.append(("struct-strings", {}, lambda: NamedTupleStructSerializer(Rec, {"key": "6s", "n": "h", "tag": "3s"}, format_endianness="!"),
                 [Rec("abc", 1, "xyz"), Rec("\0lead", -2, "\0z"), Rec("a\0b", 3, ""), Rec("", 0, "q")]))
     return out
 
 
-BAD_FRAMES = {"filebased": b"\x02!!", "json-lines": b"{nope\n", "line-crlf": b"\xff\xfe\r\n", "base64": b"QUJD\r\n",
+BAD_FRAMES = {"pickle": b"NN\x85R.",  # REDUCE applied to None: the unpickler raises TypeError
+              "filebased": b"\x02!!", "json-lines": b"{nope\n", "line-crlf": b"\xff\xfe\r\n", "base64": b"QUJD\r\n",
               "line-idna": b"xn--a\n", "line-utf16": b"\x00\xd8x\n", "json-raw": b"{nope}", "struct-strings": b"\xff\xfe\xfd\xfc\xfb\xfa\x00\x01abc"}
 
 
@@ -220,6 +223,8 @@ def search(budget):
     rng = random.Random(20260101)
     cases = 0
     for name, cfg, make, packets in scenarios():
+        if cfg.get("oneshot_only"):
+            continue
         ser = make()
         wires = [b"".join(ser.incremental_serialize(p)) for p in packets]
         # every ordered pair / triple of packets on one connection
